@@ -154,7 +154,8 @@ class C11(Spec):
             "colliding under FNV-1a/FNV-1/CRC-32/Adler-32/djb2/sdbm/31h+c and their 16-bit truncations, brute-forced at start-up) "
             "written and read back-to-back and interleaved as strings and byte slices; conc lines: 8 goroutines with private "
             "streams repeat their own sequences 10000-30000 times concurrently and must reproduce the sequential bytes and values "
-            "(quick 16, thorough 120 lines); thorough only, when >= 3 GiB are available: records of 2^28-1, 2^28, 2^28+1 bytes (5-byte "
+            "(quick 16, thorough 120 lines); records of 127/128/129, 16383/16384/16385, 2097151/2097152/2097153 bytes as bytes and as string in the compact "
+            "giant form (every prefix-width boundary +-1); thorough only, when >= 3 GiB are available: records of 2^28-1, 2^28, 2^28+1 bytes (5-byte "
             "prefix boundary; the driver does not materialise them: expected prefix = spec leb128 of the length, lengths, and a "
             "CRC-32 streamed over the payload formula, by C11_wire_bytes / C11_roundtrip_bytes); random typed "
             "sequences. distinct by script line; non-trivial = at least one value whose encoding has more than one byte")
